@@ -153,6 +153,35 @@ def relations(ctx, aotools, cfg, rng):
     ctx.close("wavelength_scaling", Ml, base * np.outer(fac, fac), tol, "wavelength_scaling", wit, scale=sc)
 
 
+def check_pair_functions(ctx, aotools, rng):
+    """The building blocks (public functions) on separations where slope end points of the two sensors coincide exactly:
+    sub-aperture grids offset by multiples of half a sub-aperture. Reference: the four-point formula on the end points."""
+    from aotools.turbulence import slopecovariance as sc
+    d1 = float(rng.choice([0.5, 0.25, 0.125, 1.0]))
+    d2 = d1 if rng.random() < 0.6 else float(rng.choice([0.5, 0.25, 0.125, 1.0]))
+    r0, L0 = float(10 ** rng.uniform(-1.3, 0.3)), float(rng.choice([10.0, 25.0, 100.0, 1e4]))
+    n1, n2 = int(rng.integers(2, 6)), int(rng.integers(2, 6))
+    h = 0.5 * min(d1, d2)
+    sep = rng.integers(-6, 7, (n1, n2, 2)).astype(np.float64) * h        # multiples of half the smaller sub-aperture
+    B0 = vk.variance(r0, L0)
+    D = lambda v: vk.structure_function(np.sqrt((v ** 2).sum(-1)), r0, L0)
+    ex, ey = np.array([1.0, 0.0]), np.array([0.0, 1.0])
+    wit = {"d1": d1, "d2": d2, "r0": r0, "L0": L0, "separations_in_units_of_half_subap": True}
+    ctx.case("pair_functions_on_lattice", key=("pair", d1, d2, r0, L0, float(sep.sum())), nontrivial=True, sample=wit)
+    for name, fn, u, v in (("compute_covariance_xx", sc.compute_covariance_xx, ex, ex), ("compute_covariance_yy", sc.compute_covariance_yy, ey, ey),
+                           ("compute_covariance_xy", sc.compute_covariance_xy, ex, ey)):
+        got = np.asarray(fn(sep.copy(), d1, d2, r0, L0), dtype=np.float64)
+        a, b = 0.5 * d1 * u, -0.5 * d1 * u
+        c, e = sep + 0.5 * d2 * v, sep - 0.5 * d2 * v
+        want = D(a - e) + D(b - c) - D(a - c) - D(b - e)
+        ctx.count("pair_function_entries", want.size)
+        coinc = int(((np.abs(a - e).sum(-1) == 0) | (np.abs(b - c).sum(-1) == 0) | (np.abs(a - c).sum(-1) == 0) | (np.abs(b - e).sum(-1) == 0)).sum())
+        ctx.count("pair_function_entries_with_coincident_end_points", coinc)
+        if ctx.check(got.shape == want.shape, name + ":shape", "shape %s, expected %s" % (got.shape, want.shape), wit):
+            ctx.close(name + "_vs_four_point_formula", got, want, 1e-3 * np.abs(want) + 256 * EPS64 * 2 * B0,     # one rounded constant multiplies all four terms
+                      name + ":four_point_formula" + (":coincident_end_points" if coinc else ""), wit, scale=2 * B0)
+
+
 def run(ctx, spec):
     import aotools
     chk = vk.self_check(n_mp=4, n_hankel=2, seed=ctx.seed)
@@ -180,6 +209,8 @@ def run(ctx, spec):
                 slopecfg.construct(aotools, cfg, threads=2).make_covariance_matrix()
             finally:
                 slopecfg.kill_pools()
+    for j in range(4 * spec["n_rel"]):
+        check_pair_functions(ctx, aotools, rng)
     for j in range(spec["n_rel"]):
         cfg = slopecfg.make_config(rng, max_n=min(4, spec["max_n"]))
         ctx.case("relation_group", key=slopecfg.key(cfg) + "rel", nontrivial=True)
